@@ -32,7 +32,9 @@ RULE = ("batdata generator (1-5 groups with 1-3 batteries behind 1-4 shared inve
 REQUIRED_BUCKETS = ["battery-with-zero-capacity-in-a-shared-group", "set-points-of-an-accepted-inside-probe-judged", "battery-group-outside-the-pool-present", "group-with-one-battery-not-working",
                     "probe-inside-accepted", "probe-outside-rejected", "shared-inverters(n bat:1 inv)",
                     "shared-batteries(1 bat:n inv)", "nonzero-exclusion", "adjust_power=True", "adjust_power=False",
-                    "probe-on-bound", "irregular-group(batteries with different inverter sets)"]
+                    "probe-on-bound", "irregular-group(batteries with different inverter sets)",
+                    "set_power-refused-by-the-api-for-a-power-inside-the-advertised-bounds",
+                    "pool-tier:bounds-stream-first-accessed-after-the-statuses-are-known", "pool-tier:streamed-bounds-compared"]
 REQUIRED_COUNTERS = ["probes_checked", "inclusion_bounds_compared", "min_power_sums_checked"]
 ASSUMPTIONS = ["fake API / graph; all components healthy"]
 
@@ -51,7 +53,7 @@ def gen(rng: Any, tier: str, i: int) -> Any:
         if all(batdata.component_ok(c) for g in groups for c in g["bats"] + g["invs"]):
             irregular = (rng.random() < 0.3 and 2 <= len(groups[0]["bats"]) <= 3 and len(groups[0]["invs"]) >= 2)
             case = {"groups": groups, "pseed": rng.randrange(1 << 30), "irregular": irregular,
-                    "bystander": rng.random() < 0.25}
+                    "bystander": rng.random() < 0.25, "api_refuses": rng.random() < 0.3}
             multi = [g for g, grp in enumerate(groups) if len(grp["bats"]) >= 2]
             if multi and rng.random() < 0.12:
                 # a battery that reports a capacity of 0 Wh next to a healthy one (its bounds still count on both sides)
@@ -168,7 +170,89 @@ async def _drive(case: dict[str, Any], probes: list[float], out: dict[str, Any])
             out["calls"].append([(c["id"], c["watts"]) for c in api.calls])
             out["hook"].append([] if case.get("irregular") else
                                distmon.excl_hook_mismatch(case, distmon._stage.get("multi_in"), p > 0))  # noqa: SLF001
+    if case.get("api_refuses") and out.get("inside_probe") is not None:
+        # the microgrid API answers the set_power calls of one more request - for a power inside the advertised bounds -
+        # with OUT_OF_RANGE: a failed command (the result says which), not a request "out of bounds"
+        for _, invs in groups:
+            for i in invs:
+                api.outcome[i] = "range"
+        p = out["inside_probe"]
+        req = Request(power=Power.from_watts(p), component_ids=set(all_bats), adjust_power=bool(case["pseed"] % 2))
+        distmon._stage.clear()  # noqa: SLF001
+        api.calls.clear()
+        await mgr.distribute_power(req)
+        res = res_rx.consume() if res_rx._q else None  # noqa: SLF001
+        out["results"].append((p, bool(case["pseed"] % 2), res))
+        out["calls"].append([])  # (nothing was accepted: no set-points to judge)
+        out["hook"].append([])
+        out["api_refused"] = sum(1 for c in api.calls if c["outcome"] == "range")
     await mgr.stop()
+
+
+async def _drive_pool(case: dict[str, Any], out: dict[str, Any]) -> None:
+    """What the real BatteryPool streams as its power bounds when the stream is first asked for *after* the battery
+    statuses are known (one battery of the pool is not working, its data keeps arriving)."""
+    from unittest.mock import MagicMock
+
+    from frequenz.channels import Broadcast
+
+    from frequenz.sdk._internal._channels import ChannelRegistry
+    from frequenz.sdk.microgrid._power_distributing._component_status import ComponentPoolStatus
+    from frequenz.sdk.timeseries.battery_pool import BatteryPool
+    from frequenz.sdk.timeseries.battery_pool._battery_pool_reference_store import BatteryPoolReferenceStore
+
+    comps, conns = _topology(case)
+    api = fakes.install_connection_manager(comps, conns)
+    ids = {_bid(case, g, j) for g, grp in enumerate(case["groups"]) for j in range(len(grp["bats"]))}
+    working = set(ids) - {_bid(case, *case["not_working"])}
+    status_ch = Broadcast(name="battery-status", resend_latest=True)
+    store = BatteryPoolReferenceStore(
+        channel_registry=ChannelRegistry(name="vf"), resampler_subscription_sender=Broadcast(name="rs").new_sender(),
+        batteries_status_receiver=status_ch.new_receiver(limit=1), power_manager_requests_sender=Broadcast(name="pm").new_sender(),
+        power_manager_bounds_subscription_sender=Broadcast(name="pb").new_sender(),
+        power_distribution_results_fetcher=MagicMock(), min_update_interval=timedelta(seconds=0.2), batteries_id=set(ids))
+    pool = BatteryPool(pool_ref_store=store, name="vf", priority=0, set_operating_point=False)
+    early = bool(case["pseed"] % 3 == 0)
+    rx = pool._system_power_bounds.new_receiver(limit=100) if early else None  # noqa: SLF001
+    await status_ch.new_sender().send(ComponentPoolStatus(working=set(working), uncertain=set()))
+    await asyncio.sleep(0.3)
+    if rx is None:
+        rx = pool._system_power_bounds.new_receiver(limit=100)  # noqa: SLF001  (first access: statuses have settled)
+    for k in range(4):
+        now = datetime.now(timezone.utc)
+        for g, grp in enumerate(case["groups"]):
+            for j, b in enumerate(grp["bats"]):
+                await api.feed(_bid(case, g, j), batdata.mk_battery(_bid(case, g, j), b, now))
+            for j, i in enumerate(grp["invs"]):
+                await api.feed(_iid(case, g, j), batdata.mk_inverter(_iid(case, g, j), i, now))
+        await asyncio.sleep(0.5)
+    last = None
+    while rx._q:  # noqa: SLF001
+        last = rx.consume()
+    out["pool_bounds"] = last
+    out["first_access_after_status"] = not early
+    await store.stop()
+
+
+def _pool_tier(case: dict[str, Any], sb: Any, rec: Any) -> None:
+    out: dict[str, Any] = {}
+    run_virtual(lambda: _drive_pool(case, out))
+    rec.bucket("pool-tier:bounds-stream" + ("-first-accessed-after-the-statuses-are-known" if out.get("first_access_after_status") else ""))
+    got = out.get("pool_bounds")
+    rec.count("pool_bounds_compared")
+    if got is None or got.inclusion_bounds is None or got.exclusion_bounds is None:
+        # nothing advertised: C17 (powers inside the advertised bounds) says nothing about this run
+        rec.count("pool-tier:no-bounds-streamed")
+        return
+    rec.bucket("pool-tier:streamed-bounds-compared")
+    a = [sb.inclusion_bounds.lower.as_watts(), sb.exclusion_bounds.lower.as_watts(), sb.exclusion_bounds.upper.as_watts(),
+         sb.inclusion_bounds.upper.as_watts()]
+    b = [got.inclusion_bounds.lower.as_watts(), got.exclusion_bounds.lower.as_watts(), got.exclusion_bounds.upper.as_watts(),
+         got.inclusion_bounds.upper.as_watts()]
+    if any(abs(x - y) > 1e-9 * max(1.0, abs(x)) for x, y in zip(a, b)):
+        rec.violation("pool-streams-bounds-that-are-not-those-of-its-working-batteries",
+                      {"streamed": b, "bounds_of_the_working_batteries": a, "not_working": case["not_working"],
+                       "first_access_after_status": out.get("first_access_after_status")})
 
 
 def check(case: dict[str, Any], rec: Any) -> None:
@@ -188,6 +272,9 @@ def check(case: dict[str, Any], rec: Any) -> None:
         rec.bucket("group-with-one-battery-not-working")
     if case.get("bystander"):
         rec.bucket("battery-group-outside-the-pool-present")
+    if case.get("not_working") and not case.get("bystander") and sb.inclusion_bounds is not None and sb.exclusion_bounds is not None:
+        _pool_tier(case, sb, rec)
+        fakes.install_connection_manager(comps, conns)
     if case.get("zero_capacity"):
         rec.bucket("battery-with-zero-capacity-in-a-shared-group")
     if sb.inclusion_bounds is None or sb.exclusion_bounds is None:
@@ -219,6 +306,11 @@ def check(case: dict[str, Any], rec: Any) -> None:
                       {"advertised_exclusion": [el, eu], "sum_min_power_consume": min_up, "sum_min_power_supply": min_dn})
 
     out: dict[str, Any] = {"results": [], "hook": [], "calls": []}
+    if case.get("api_refuses"):
+        from frequenz.quantities import Power as _P
+
+        ins = [p for p in probes if (_P.from_watts(p) in sb) or (il <= p <= iu and (p <= el or p >= eu))]
+        out["inside_probe"] = ins[len(ins) // 2] if ins else None
     distmon.install()
     run_virtual(lambda: _drive(case, probes, out))
     for (p, adj, _res), bad in zip(out["results"], out["hook"]):
@@ -247,6 +339,8 @@ def check(case: dict[str, Any], rec: Any) -> None:
                           {"probe": p, "adjust_power": adj, "set_points": calls,
                            "inside": [{"inverter": i, "watts": w_, "exclusion": list(inv_excl[i])} for i, w_ in bad_sp]})
             break
+    if out.get("api_refused"):
+        rec.bucket("set_power-refused-by-the-api-for-a-power-inside-the-advertised-bounds")
     n_in = n_out = 0
     for p, adj, res in out["results"]:
         rec.count("probes_checked")
